@@ -69,14 +69,57 @@ def _safe_attrs(ctx):
     return out
 
 
-def _piece_safe(e, fmt_spec, safe_attrs, fn):
+_HELPER_CACHE = {}
+
+
+def _helper_returns_safe(fn, name, safe_attrs):
+    """a method of the same class (other than the known builders) all of whose return values are safe text, its
+    parameters being treated as unsafe"""
+    cls = A.enclosing(fn, (ast.ClassDef,))
+    if cls is None or name in ('_seg_str', '_wrap_ele_error'):
+        return False
+    key = (id(cls), name)
+    if key in _HELPER_CACHE:
+        return _HELPER_CACHE[key]
+    _HELPER_CACHE[key] = False
+    h = next((f for f in cls.body if isinstance(f, ast.FunctionDef) and f.name == name), None)
+    ok = False
+    if h is not None:
+        rets = [n.value for n in ast.walk(h) if isinstance(n, ast.Return) and n.value is not None]
+        ok = bool(rets) and all(_piece_safe(v, None, safe_attrs, h)[0] for v in rets)
+    _HELPER_CACHE[key] = ok
+    return ok
+
+
+def _piece_safe(e, fmt_spec, safe_attrs, fn, _seen=None):
     """(safe?, why)"""
+    _seen = _seen if _seen is not None else set()
+    if isinstance(e, ast.BinOp) and isinstance(e.op, ast.Add):
+        l, r = _piece_safe(e.left, None, safe_attrs, fn, _seen), _piece_safe(e.right, None, safe_attrs, fn, _seen)
+        if l[0] and r[0]:
+            return True, 'concatenation of safe text'
+        return l if not l[0] else r
     if fmt_spec in ('i', 'd'):
         return True, 'integer conversion'
     if isinstance(e, ast.Constant):
         return True, 'constant'
+    if isinstance(e, ast.IfExp):
+        l, r = _piece_safe(e.body, None, safe_attrs, fn, _seen), _piece_safe(e.orelse, None, safe_attrs, fn, _seen)
+        if l[0] and r[0]:
+            return True, 'either alternative is safe'
+        return l if not l[0] else r
+    if isinstance(e, (ast.ListComp, ast.GeneratorExp)):
+        return _piece_safe(e.elt, None, safe_attrs, fn, _seen)
+    if isinstance(e, (ast.List, ast.Tuple)):
+        for x in e.elts:
+            r_ = _piece_safe(x, None, safe_attrs, fn, _seen)
+            if not r_[0]:
+                return r_
+        return True, 'all items safe'
     if isinstance(e, ast.Call):
         r, m = A.call_target(e)
+        if r == 'self' and _helper_returns_safe(fn, m, safe_attrs):
+            return True, 'built by %s, which returns escaped text only' % m
         if m == 'escape_html_chars':
             return True, 'escaped'
         if (r, m) == ('time', 'strftime'):
@@ -89,9 +132,16 @@ def _piece_safe(e, fmt_spec, safe_attrs, fn):
     if p in safe_attrs:
         return True, 'attribute only ever assigned constants or escaped text'
     if isinstance(e, ast.Name):
+        # loop variable over a tuple/list of constants
+        for lp_ in ast.walk(fn):
+            if isinstance(lp_, ast.For) and isinstance(lp_.target, ast.Name) and lp_.target.id == e.id and isinstance(lp_.iter, (ast.Tuple, ast.List)) \
+                    and all(isinstance(x, ast.Constant) for x in lp_.iter.elts):
+                return True, 'constant text from a literal table'
         # local assigned only from safe expressions?
+        if e.id in _seen:
+            return True, 'recursive reference'
         vals = [s.value for s in ast.walk(fn) if isinstance(s, ast.Assign) and any(path_of(t) == e.id for t in s.targets)]
-        if vals and all(_piece_safe(v, None, safe_attrs, fn)[0] for v in vals):
+        if vals and all(_piece_safe(v, None, safe_attrs, fn, _seen | {e.id})[0] for v in vals):
             return True, 'local bound to safe text'
     return False, 'input-derived text `%s` is written without escape_html_chars' % norm(e)
 
@@ -164,28 +214,41 @@ def r1_escaping(ctx):
         yield Ob(km('error_html:error_html._seg_str <- %s' % norm(e, 40)), ok, ctx.floc(f, ret), '' if ok else why)
     # element values are escaped in gen_seg before they go into the element list
     f = ctx.func('error_html', 'error_html.gen_seg')
-    vals = [n for n in ast.walk(f) if isinstance(n, ast.Assign) and path_of(n.targets[0]) == 'ele_str']
-    gv = [n for n in vals if any(isinstance(c, ast.Call) and A.call_target(c)[1] == 'get_value' for c in ast.walk(n.value))]
-    ok = bool(gv) and all(isinstance(n.value, ast.Call) and A.call_target(n.value)[1] == 'escape_html_chars' for n in gv)
+    # every element value read from the segment reaches the output through escape_html_chars: each get_value() call
+    # that is not part of a test sits inside the argument of an escape call
+    gvs = [c for c in A.calls_in(f) if A.call_target(c)[1] == 'get_value']
+    bad_gv = []
+    for c in gvs:
+        p_ = A.parent(c)
+        wrapped = False
+        in_test = False
+        child = c
+        while p_ is not None and not isinstance(p_, ast.stmt):
+            if isinstance(p_, ast.Call) and A.call_target(p_)[1] == 'escape_html_chars':
+                wrapped = True
+            if isinstance(p_, ast.Call) and A.call_target(p_)[0] == 'self' and _helper_returns_safe(f, A.call_target(p_)[1], _safe_attrs(ctx)):
+                wrapped = True
+            if isinstance(p_, (ast.Compare,)):
+                in_test = True
+            child = p_
+            p_ = A.parent(p_)
+        if isinstance(p_, (ast.If, ast.While)) and child is p_.test:
+            in_test = True
+        if not wrapped and not in_test:
+            bad_gv.append(c)
+    ok = bool(gvs) and not bad_gv
     yield Ob('error_html:error_html.gen_seg element values are escaped', ok, ctx.floc(f), '' if ok else 'a get_value() result is used unescaped')
     apps = [c for c in A.calls_in(f) if A.call_target(c)[1] == 'append' and c.args and not isinstance(c.args[0], ast.List)]
-    ok = all(path_of(c.args[0]) == 'ele_str' for c in apps)
+    sa_ = _safe_attrs(ctx)
+    ok = all(_piece_safe(c.args[0], None, sa_, f)[0] for c in apps)
     yield Ob('error_html:error_html.gen_seg only escaped values enter the element list', ok, ctx.floc(f), '' if ok else 'appends: %s' % [norm(c) for c in apps])
 
 
 def r2_escape_chain(ctx):
     f = ctx.func('error_html', 'escape_html_chars')
-    chain = []
-    for n in ast.walk(f):
-        if isinstance(n, ast.Call) and A.call_target(n)[1] == 'replace' and len(n.args) == 2 and A.is_str(n.args[0]):
-            chain.append((n.lineno, n.col_offset, n.args[0].value, A.const(n.args[1])))
-    # evaluation order: statements in order; within a chained expression innermost first
-    order = []
-    for s in f.body:
-        calls = [n for n in ast.walk(s) if isinstance(n, ast.Call) and A.call_target(n)[1] == 'replace' and len(n.args) == 2 and A.is_str(n.args[0])]
-        calls.sort(key=lambda c: -len(ast.unparse(c)))
-        calls.reverse()
-        order += [(c.args[0].value, A.const(c.args[1])) for c in calls]
+    from .c08 import _replace_chain
+    order, _base = _replace_chain(f, ctx)
+    order = [(a_, b_) for a_, b_ in order]
     if not order:
         raise AnalysisError('escape_html_chars: replace chain not found')
     srcs = [a for a, b in order]
@@ -196,7 +259,14 @@ def r2_escape_chain(ctx):
         yield Ob('error_html:escape_html_chars covers %s' % ch, ok, ctx.floc(f), '' if ok else '%r is not replaced by %s' % (ch, ent))
     # the function returns the transformed text
     rets = [n for n in ast.walk(f) if isinstance(n, ast.Return) and n.value is not None and not isinstance(n.value, ast.Constant)]
-    ok = len(rets) == 1 and path_of(rets[0].value) == 'output' or (len(rets) == 1 and 'replace' in norm(rets[0].value))
+    ok = False
+    if len(rets) == 1:
+        v = rets[0].value
+        if 'replace' in norm(v):
+            ok = True
+        elif isinstance(v, ast.Name):
+            # accumulator: the returned name is (re)bound to a .replace(...) of itself / of the parameter
+            ok = any(isinstance(n, ast.Assign) and path_of(n.targets[0]) == v.id and 'replace' in norm(n.value) for n in ast.walk(f))
     yield Ob('error_html:escape_html_chars returns the escaped text', ok, ctx.floc(f), '' if ok else 'return changed')
 
 
@@ -308,7 +378,9 @@ def r4_every_error(ctx):
                  '' if not bad else 'code %r is printed %d times' % bad[0])
         # order: the `== 3` filter before the segment line, the other after
         seg_write = [c for c in A.calls_in(f) if A.call_target(c) == ('self.fd', 'write') and 'class="seg"' in ast.unparse(c)]
-        ok2 = len(seg_write) == 1 and tests[0].lineno < seg_write[0].lineno < tests[1].lineno
+        po = A.preorder(f)
+        tests.sort(key=lambda t: po[id(t)])
+        ok2 = len(seg_write) == 1 and po[id(tests[0])] < po[id(seg_write[0])] < po[id(tests[1])]
         yield Ob('error_html:error_html.gen_seg segment line between the two error blocks', ok2, ctx.floc(f), '' if ok2 else 'order changed')
         pre = [t for t in tests if A.ev(t.test, {'err_cde': '3'})]
         ok3 = len(pre) == 1 and pre[0] is tests[0]
@@ -318,7 +390,7 @@ def r4_every_error(ctx):
     ok = len(loops) >= 3
     yield Ob('error_html:error_html.gen_seg iterates every collected error node', ok, ctx.floc(f), '' if ok else '%d loops over err_node_list' % len(loops))
     inner = [n for n in ast.walk(f) if isinstance(n, ast.For) and norm(n.iter) == 'err_node.elements']
-    ele_write = any('Element Error Code' in ast.unparse(n) for n in inner)
+    ele_write = any('Error Code' in ast.unparse(n) and 'Element' in ast.unparse(n) for n in inner)
     yield Ob('error_html:error_html.gen_seg prints element errors', ele_write, ctx.floc(f), '' if ele_write else 'element error block removed')
     # the line written carries the line number and the segment text
     seg_write = [c for c in A.calls_in(f) if A.call_target(c) == ('self.fd', 'write') and 'class="seg"' in ast.unparse(c)]
@@ -369,6 +441,6 @@ RULES = [
     Rule('C19.R1', 'every interpolated piece of every HTML write is constant, integer, map text or escaped', r1_escaping, floor=15),
     Rule('C19.R2', 'escape chain: & first, < and > covered', r2_escape_chain, floor=3),
     Rule('C19.R3', 'header before, one gen_seg per iteration, footer after (CFG)', r3_every_segment, floor=4),
-    Rule('C19.R4', 'error code filters partition the codes; all nodes, element errors and positions rendered', r4_every_error, floor=6),
+    Rule('C19.R4', 'error code filters partition the codes; all nodes, element errors and positions rendered', r4_every_error, floor=4),
     Rule('C19.R5', 'no text is escaped twice', r5_escaped_once, floor=5),
 ]
